@@ -110,7 +110,8 @@ def nsga2_step(args):
         box['reroll'] = _Reroll
 
     def body(ctx):
-        ops.configure(round_grid=False)   # the 1e-7 grid of np.round is irrelevant here (C05 checks the rounding)
+        # rounding of the signed costs is irrelevant here (C05 checks it): np.round is a plain uninterpreted function
+        ops.configure(round_grid=False, round_lemmas=False)
         # should the code key a dict/set on cost values: every symbolic number hashes alike, so that Python falls
         # back to == (which forks symbolically).  Sound here because every cost in this harness is symbolic.
         ctx.hash_hook = lambda x: 0
